@@ -48,11 +48,13 @@ fn now_ns() -> u128 {
     SystemTime::now().duration_since(UNIX_EPOCH).map(|d| d.as_nanos()).unwrap_or(0)
 }
 
+/// One observation = exactly one conversion (the property speaks of single conversions; a helper that
+/// converts twice and cross-checks can straddle a refresh and see two admissible zones).
 fn convert(kind: &str, v: i64) -> Ans {
     if kind == "U" {
-        tzchild::answer_utc(v)
+        tzchild::answer_utc_single(v)
     } else {
-        tzchild::answer_local(v)
+        tzchild::answer_local_single(v)
     }
 }
 
